@@ -498,6 +498,20 @@ def _roundtrip(text, d):
          clause="textual round trip; gains on channel subsets with non uniform tables")
 def b_native(B):
     rng = np.random.default_rng(B.seed)
+    # text values made only of digits, commas and dots that are neither a number nor a list of numbers (a note, a separator, a trailing comma): they are strings of the
+    # grammar like any other - the file opens and the value survives the round trip as text
+    dd = tempfile.mkdtemp(prefix="c09_")
+    try:
+        for txt in (",", "1,,2", "1,2,", ".", ",5", "..", "1.2.3", "192.168.0.1"):
+            try:
+                keys_ok, diffs, m1, m2 = _roundtrip(f"typeThis=imec\nnSavedChans=385\nuserNotes={txt}\nimSampRate=30000\n", dd)
+                okt = keys_ok and not diffs and m1.get("userNotes") == txt and m1.get("nSavedChans") == 385.0
+                dett = {"value": txt, "parsed_as": repr(m1.get("userNotes"))[:40], "differing_after_round_trip": diffs[:3]}
+            except Exception as e:
+                okt, dett = False, {"value": txt, "parser_raised": repr(e)[:100]}
+            B.case(("text_of_digits_commas_dots", txt), okt, detail=dett, inputs={"kind": "digit_comma_dot_text", "value": txt})
+    finally:
+        shutil.rmtree(dd, ignore_errors=True)
     okg, detg = native_gains_of_a_channel_subset(np.random.default_rng(4))
     B.case("gains_of_a_saved_channel_subset_not_starting_at_0", okg, detail=detg, inputs={"kind": "nonprefix_subset_gains"})
     d = tempfile.mkdtemp(prefix="c09_")
